@@ -19,6 +19,8 @@ type Factory struct {
 
 	ConnectErr error // Connect fails with this error
 	ListenErr  error
+	ListenFailN int // with ListenErr set: only the first N Listen calls fail (0: all)
+	listenCalls int
 	Frag       int
 	Log        []FEv
 }
@@ -94,7 +96,8 @@ func (f *Factory) Listen(options *transport.Options) (transport.Acceptor, error)
 	if err := f.Schemes().FixScheme(options.Address); err != nil {
 		return nil, err
 	}
-	if f.ListenErr != nil {
+	if f.ListenErr != nil && (f.ListenFailN == 0 || f.listenCalls < f.ListenFailN) {
+		f.listenCalls++
 		f.ev("listen-err", -1, -1)
 		return nil, f.ListenErr
 	}
